@@ -14,6 +14,7 @@ type GenCfg struct {
 	NoAugments  bool
 	NoRpcs      bool
 	NoSubmods   bool
+	NoSubNodes  bool // submodules define no data nodes of their own
 	NoWhenMust  bool
 	NoFeatures  bool
 	ConfigFalse bool // allow config false subtrees
@@ -414,6 +415,13 @@ func (g *G) GenSet() []*Mod {
 				gr.Kids = g.kids(ssc, 1, false)
 				sub.Groupings = append(sub.Groupings, gr)
 				ssc.groupings = append(ssc.groupings, gr.Name)
+			}
+			// a data tree of its own: it belongs to the module like any other top-level node
+			if !cfg.NoSubNodes && g.Chance(1, 2, "subtop") {
+				n := &Node{Kind: "container", Name: fmt.Sprintf("m%d-subtop", i)}
+				g.decorate(n, ssc, false)
+				n.Kids = g.kids(ssc, cfg.MaxDepth-1, n.Config == "false")
+				sub.Nodes = append(sub.Nodes, n)
 			}
 			m.Includes = []string{sub.Name}
 			subs[i] = sub
